@@ -47,7 +47,7 @@ PROPS = {
     "C09": {
         "lean": ["FH.Props.C09"],
         "engines": ["rule", "hist", "pe", "row", "scn", "macho"],
-        "level_text": "Theorems: (1) whole call - for every unwinder (arbitrary DWARF rows, PE tables, text bytes, ranges; Mach-O opcode fields in the range of their Rust types), every rule cache holding in-range rules (preserved by every call, true of the empty cache), every address, register file and stack reader, unwind_frame has a panic outcome only where the PE operation interpreter has one (pe-unwind-info's resolve_operation, third-party, known finding F8-dep), and on aarch64 never; this rests on: every rule the miss path can produce (DWARF translation, compact-unwind opcodes, instruction analysis on arbitrary bytes, PE compression, fallbacks) has fields in the ranges for which (2) rule execution is panic free for all registers/readers, and the generic DWARF path has no panic outcome; (3) checked_add_signed equals the mathematical definition. The model is tied to the code by executing every generated case on both; every case is also run on the implementation under catch_unwind with overflow checks on.",
+        "level_text": "Theorems: (1) whole call - for every unwinder (arbitrary DWARF rows, PE tables, text bytes, ranges; Mach-O opcode fields in the range of their Rust types), every rule cache holding in-range rules (preserved by every call, true of the empty cache), every address, register file and stack reader, unwind_frame has a panic outcome only where the PE operation interpreter has one (pe-unwind-info's resolve_operation, third-party, known finding F8-dep), and on aarch64 never; lifted to every world a history of new/clone/add/remove/unwind operations can reach from the initial one (invariant by induction over operations); this rests on: every rule the miss path can produce (DWARF translation, compact-unwind opcodes, instruction analysis on arbitrary bytes, PE compression, fallbacks) has fields in the ranges for which (2) rule execution is panic free for all registers/readers, and the generic DWARF path has no panic outcome; (3) checked_add_signed equals the mathematical definition. The model is tied to the code by executing every generated case on both; every case is also run on the implementation under catch_unwind with overflow checks on.",
         "level_note": _NOTE,
         "statement": "No reachable panic outcome in a whole unwind_frame call outside the third-party PE operation interpreter: rule execution (both architectures, all parameter values of the Rust field types, all registers, all stack readers), all rule producers, the generic DWARF path, checked_add_signed, the pointer-auth mask constructor. Every model function is total in Lean.",
     },
@@ -133,7 +133,7 @@ PROPS = {
     "C04": {
         "lean": ["FH.Props.C04"],
         "engines": ["scn", "hist", "rule", "asm"],
-        "level_text": "Theorems: the decision table (no module / no or unusable unwind data / failed table lookup => fallback rule; address covered by no FDE => the architecture's uncovered rule = leaf in the first frame, frame pointer step otherwise), the fallback rule equals the platform frame-pointer convention under framehop's sanity checks (both architectures), null frame pointer or null return address completes with Ok(None), and a walk over any well-formed frame-record chain (any length, spacing, alignment) yields exactly the records' return addresses and ends with Ok(None) (induction over the chain). Tie: scn with unwind info removed in five ways + hist.",
+        "level_text": "Theorems: the decision table (no module / no or unusable unwind data / failed table lookup => fallback rule; address covered by no FDE => the architecture's uncovered rule = leaf in the first frame, frame pointer step otherwise), the fallback rule equals the platform frame-pointer convention under framehop's sanity checks (both architectures), null frame pointer or null return address completes with Ok(None), and a walk over any well-formed frame-record chain (any length, spacing, alignment; both architectures) yields exactly the records' return addresses and ends with Ok(None) (induction over the chain). Tie: scn with unwind info removed in five ways + hist.",
         "level_note": _NOTE + " PE (.pdata) and compact-unwind reasons are added with those formats' models.",
         "statement": "Fallback/leaf decision table and frame-pointer chain walk.",
     },
